@@ -199,3 +199,62 @@ Qed.
 Lemma dop_pythagoras_geometry_l s M : inverse_of (normal s) M ->
   (gdop M)² = (pdop M)² + (tdop M)² /\ (pdop M)² = (hdop M)² + (vdop M)².
 Proof. intros H. apply dop_pythagoras_l; apply (dop_diag_nonneg_l s); exact H. Qed.
+
+(* ---- four satellites: H is square.  (H^T H)^-1 = H^-1 H^-T - and *not* (H H^T)^-1 = H^-T H^-1 *)
+Definition Hmat (s0 s1 s2 s3 : R * R) : mat :=
+  fun i j => row (match i with i0 => s0 | i1 => s1 | i2 => s2 | i3 => s3 end) j.
+
+Lemma normal_square s0 s1 s2 s3 :
+  meq (normal [s0; s1; s2; s3]) (mmul (mT (Hmat s0 s1 s2 s3)) (Hmat s0 s1 s2 s3)).
+Proof. intros i j. unfold mmul, sum4, mT, Hmat. cbn [normal]. ring. Qed.
+
+Lemma dop_square_case_l s0 s1 s2 s3 G :
+  inverse_of (Hmat s0 s1 s2 s3) G -> inverse_of (normal [s0; s1; s2; s3]) (mmul G (mT G)).
+Proof.
+  intros [HG GH]. set (H := Hmat s0 s1 s2 s3) in *.
+  apply (inverse_of_meq (mmul (mT H) H)); [apply meq_sym, normal_square|].
+  assert (TG : meq (mmul (mT G) (mT H)) mI) by (rewrite <- mT_mmul, (mT_Proper _ _ HG); apply mT_I).
+  assert (TH : meq (mmul (mT H) (mT G)) mI) by (rewrite <- mT_mmul, (mT_Proper _ _ GH); apply mT_I).
+  split.
+  - rewrite (mmul_assoc (mT H) H (mmul G (mT G))). rewrite <- (mmul_assoc H G (mT G)).
+    rewrite HG, mmul_I_l. exact TH.
+  - rewrite (mmul_assoc G (mT G) (mmul (mT H) H)). rewrite <- (mmul_assoc (mT G) (mT H) H).
+    rewrite TG, mmul_I_l. exact GH.
+Qed.
+
+(* the other product, (H H^T)^-1 = G^T G, has the same trace (GDOP) but a different diagonal: witness
+   satellites at the horizon in the north, east and south and one in the zenith: TDOP^2 = 1/2, not 1 *)
+Definition wit0 : R * R := (0, 0).
+Definition wit1 : R * R := (PI / 2, 0).
+Definition wit2 : R * R := (PI, 0).
+Definition wit3 : R * R := (0, PI / 2).
+Definition Gwit : mat := fun i j =>
+  match i, j with
+  | i0, i0 => - (1 / 2) | i0, i2 => 1 / 2
+  | i1, i0 => 1 / 2 | i1, i1 => -1 | i1, i2 => 1 / 2
+  | i2, i0 => 1 / 2 | i2, i2 => 1 / 2 | i2, i3 => -1
+  | i3, i0 => 1 / 2 | i3, i2 => 1 / 2
+  | _, _ => 0
+  end.
+
+Lemma Gwit_inverse : inverse_of (Hmat wit0 wit1 wit2 wit3) Gwit.
+Proof.
+  split; intros i j; unfold mmul, sum4, Hmat, Gwit, mI, row, wit0, wit1, wit2, wit3;
+    destruct i, j; cbn [I4_eqb]; rewrite ?cos_0, ?sin_0, ?cos_PI2, ?sin_PI2, ?cos_PI, ?sin_PI; lra.
+Qed.
+
+Lemma dop_square_wrong_product_l :
+  inverse_of (normal [wit0; wit1; wit2; wit3]) (mmul Gwit (mT Gwit)) /\
+  inverse_of (mmul (Hmat wit0 wit1 wit2 wit3) (mT (Hmat wit0 wit1 wit2 wit3))) (mmul (mT Gwit) Gwit) /\
+  mmul Gwit (mT Gwit) i3 i3 = 1 / 2 /\ mmul (mT Gwit) Gwit i3 i3 = 1.
+Proof.
+  pose proof Gwit_inverse as [HG GH]. set (H := Hmat wit0 wit1 wit2 wit3) in *.
+  assert (TG : meq (mmul (mT Gwit) (mT H)) mI) by (rewrite <- mT_mmul, (mT_Proper _ _ HG); apply mT_I).
+  assert (TH : meq (mmul (mT H) (mT Gwit)) mI) by (rewrite <- mT_mmul, (mT_Proper _ _ GH); apply mT_I).
+  split; [apply dop_square_case_l; split; assumption|]. split; [split|].
+  - rewrite (mmul_assoc H (mT H) (mmul (mT Gwit) Gwit)). rewrite <- (mmul_assoc (mT H) (mT Gwit) Gwit).
+    rewrite TH, mmul_I_l. exact HG.
+  - rewrite (mmul_assoc (mT Gwit) Gwit (mmul H (mT H))). rewrite <- (mmul_assoc Gwit H (mT H)).
+    rewrite GH, mmul_I_l. exact TG.
+  - unfold mmul, sum4, mT, Gwit. split; lra.
+Qed.
